@@ -245,6 +245,15 @@ func runOne(t *testing.T, e entry, d time.Duration) {
 			return n, a, nil
 		}))
 	}
+	type reused struct {
+		h   *rtp.Header
+		buf []byte
+	}
+	reuseHdr := map[uint32]*reused{}
+	for ssrc := uint32(1); ssrc <= 3; ssrc++ {
+		reuseHdr[ssrc] = &reused{h: &rtp.Header{Version: 2, SSRC: ssrc, PayloadType: 96, Extension: true, ExtensionProfile: 0xBEDE,
+			CSRC: []uint32{7}}, buf: []byte{0, 0}}
+	}
 	for ssrc := uint32(1); ssrc <= 3; ssrc++ {
 		w := mkWriter(ssrc)
 		r := mkReader(ssrc)
@@ -252,9 +261,21 @@ func runOne(t *testing.T, e entry, d time.Duration) {
 		for g := 0; g < 2; g++ {
 			g := g
 			spawn(func(i int) {
-				h := &rtp.Header{Version: 2, SSRC: ssrc, PayloadType: 96, SequenceNumber: uint16(i*2 + g), Timestamp: uint32(i) * 3000,
-					Extension: true, ExtensionProfile: 0xBEDE}
-				_ = h.SetExtension(5, []byte{byte(i >> 8), byte(i)})
+				// odd writers reuse ONE header object and ONE extension buffer for every packet and overwrite them
+				// in place after each Write returned (the caller owns them again: C13); even writers allocate afresh
+				var h *rtp.Header
+				if g == 1 {
+					rh := reuseHdr[ssrc]
+					rh.buf[0], rh.buf[1] = byte(i>>8), byte(i)
+					rh.h.SequenceNumber, rh.h.Timestamp = uint16(i*2+g), uint32(i)*3000
+					rh.h.CSRC[0] = uint32(i)
+					_ = rh.h.SetExtension(5, rh.buf)
+					h = rh.h
+				} else {
+					h = &rtp.Header{Version: 2, SSRC: ssrc, PayloadType: 96, SequenceNumber: uint16(i*2 + g), Timestamp: uint32(i) * 3000,
+						Extension: true, ExtensionProfile: 0xBEDE}
+					_ = h.SetExtension(5, []byte{byte(i >> 8), byte(i)})
+				}
 				payload := make([]byte, 40+i%200)
 				for k := range payload {
 					payload[k] = byte(i*2 + g)
